@@ -230,7 +230,8 @@ func doThaiPuaShaping(buffer *Buffer, font *Font) {
 			action = aboveEdge.action
 		}
 
-		buffer.unsafeToBreak(base, i)
+		// the range is [start, end) : include the mark, whose glyph depends on the base
+		buffer.unsafeToBreak(base, i+1)
 		if action == tcRD {
 			info[base].codepoint = thaiPuaShape(info[base].codepoint, action, font)
 		} else {
